@@ -458,3 +458,67 @@ def check_c14(pid, tier, build, props):
 
 
 REGISTRY["C14"] = check_c14
+
+
+# --------------------------------------------------------------------------- C16
+def check_c16(pid, tier, build, props):
+    from . import c16, par
+
+    t = common.Timer()
+    problems = base_problems(build, props, pid)
+    items = c16.items_for(tier, common.seed())
+    out, errors = par.run(items, c16.export_item)
+    if errors:
+        problems.append("driver errors: %r" % errors[:2])
+    violations = []
+    counts = {"view_agree_and_theorem_applies": 0, "view_agree_only": 0, "view_disagree": 0,
+              "iter_agree_and_theorem_applies": 0, "iter_agree_only": 0, "iter_disagree": 0}
+    graphs_done = 0
+    for item, meta, res in out:
+        if meta and "harness_error" in meta:
+            problems.append("harness error: %r" % (meta,))
+            continue
+        if meta["errors"] and len(violations) < 5:
+            violations.append({"graph": item[1], "witness": {"reason": "iterator raised", "detail": meta["errors"][:2]}})
+        if res is None:
+            continue
+        rs = res if (res and isinstance(res[0], list)) else [res]
+        graphs_done += 1
+        for k, x in enumerate(rs):
+            for v in x[:-1]:
+                counts["view_" + {2: "agree_and_theorem_applies", 1: "agree_only", 0: "disagree"}[v]] += 1
+            counts["iter_" + {2: "agree_and_theorem_applies", 1: "agree_only", 0: "disagree"}[x[-1]]] += 1
+            if 0 in x and len(violations) < 5:
+                violations.append({"graph": item[1], "stage": stages.STAGES[k],
+                                   "witness": {"reason": "iteration order/content differs from the breadth-first model",
+                                               "answers": x}})
+    nth = len(props["theorems"])
+    total = sum(counts.values())
+    coverage = {
+        "obligations": nth + 1,
+        "discharged": (nth if props["ok"] else 0) + (1 if not violations and not errors and total else 0),
+        "checker_cmd": "coqc Props/C16.v; build/extract/vchk (IterHier.run_c16) on list(view) / list(scfg) of every graph",
+        "trusted_base": TRUSTED + ["extraction (ExtrOcamlBasic only) and ocaml/driver.ml", "harness/vh/export.py, c16.py"],
+        "theorems": props["theorems"],
+        "evaluations": total,
+        "distinct_nontrivial": graphs_done,
+        "rule": "all closed CFGs with <=4 blocks, shapes and random ones up to 35 blocks, before/after every "
+                "restructuring stage; one evaluation = the region-concealing view of one (sub)graph or the whole-"
+                "hierarchy iteration compared order-exactly with the model; *_theorem_applies = additionally the "
+                "connectivity hypothesis of the universal theorem was established for that instance; distinct = "
+                "input graphs (each contributes three stages and all sub-regions)",
+        "answers": counts,
+        "samples": [{"graph": items[len(items) // 2][1]}],
+        "traces_validated_against_impl": total,
+        "explanation": "Proved (U, any graph, any successor function, no bound): the breadth-first iterator "
+                       "terminates, yields the head first, no item twice, only items of the level, everything "
+                       "reachable, every other item after a predecessor; hence a permutation of the level when it is "
+                       "connected from its head (C16_concealed_view), and for SCFG.__iter__ a permutation of all "
+                       "descendants (C16_iter). Tie: the model's lists equal the implementation's, order included; "
+                       "the connectivity hypothesis is evaluated per instance.",
+    }
+    return {"coverage": coverage, "violations": violations, "problems": problems, "level": "proof",
+            "wall_s": t.s(), "broken_name": "Props/C16.v / correspondence implementation = Iter model (run_c16)"}
+
+
+REGISTRY["C16"] = check_c16
